@@ -6,6 +6,7 @@ pub mod c07;
 pub mod c08;
 pub mod c09;
 pub mod c10;
+pub mod c12;
 
 use crate::engine::Prop;
 
@@ -19,6 +20,7 @@ pub fn get(id: &str) -> Option<Box<dyn Prop>> {
     "C08" => Some(Box::new(c08::C08)),
     "C09" => Some(Box::new(c09::C09)),
     "C10" => Some(Box::new(c10::C10)),
+    "C12" => Some(Box::new(c12::C12)),
     _ => None,
   }
 }
